@@ -7,6 +7,7 @@ import FtProofs.Lemmas.TrafficTools
 import FtProofs.Lemmas.TrafficBuffet
 import FtProofs.Lemmas.TrafficSched
 import FtProofs.Lemmas.TrafficCache
+import FtProofs.Lemmas.TrafficCacheBounds
 set_option linter.unusedSectionVars false
 set_option linter.unusedSimpArgs false
 set_option linter.unusedVariables false
@@ -477,6 +478,36 @@ example :
     schedNextOkB xs = true ∧ schedOrdB xs = true ∧ xs.all (fun x => !x.2.staging) = true ∧
     getAt (xs.foldl (cstep 32 (some 32)) {}).reads 0 = 96 ∧
     getAt (refCache 32 (some 32) {} xs).reads 0 = 96 := by decide
+
+/-- hypothesis (1) of `cache_eq_reference_partial` is discharged by the next-use pass: the
+    interleaving of the bindings' next-use traces carries correct next-use stamps. -/
+theorem cache_hyp_next (L : Nat) (bs : List (List Bool × Nat × Option Nat × List CRow)) :
+    schedNextOkB (schedule L (bs.map (fun b => accsOf b.1 b.1 b.2.1 b.2.2.1 b.2.2.2))) = true := by
+  apply schedule_nextOk
+  intro t ht
+  obtain ⟨b, _, rfl⟩ := List.mem_map.1 ht
+  exact accsOf_nextOk _ _ _ _
+
+/-- Cache traffic bounds, for ANY consumption sequence (ties and pinned lines included): the fills
+    charged to binding `i` are at most one per read access of `i`, and — if the run does not end in
+    an exception — at least one for every distinct line of `i` whose first access is a read. -/
+theorem cache_traffic_bounds (ls : Nat) (cap : Option Nat) (xs : Sched) (i : Nat) :
+    getAt (xs.foldl (cstep ls cap) {}).reads i ≤ ls * readsOf i xs ∧
+    ((xs.foldl (cstep ls cap) {}).failed = none →
+      ls * firstReadsOf i [] xs ≤ getAt (xs.foldl (cstep ls cap) {}).reads i) := by
+  refine ⟨?_, ?_⟩
+  · have := cache_upper ls cap i xs {}
+    simpa [getAt, alookup] using this
+  · intro hok
+    have := cache_lower ls cap i xs {} [] (by intro k hk; simp [alookup] at hk) hok
+    simpa [getAt, alookup] using this
+
+example :
+    let xs : Sched := schedule 1 [accsOf [true] [true] 1 none
+      [⟨[0], [0], 0, false⟩, ⟨[1], [1], 1, false⟩, ⟨[2], [0], 0, false⟩, ⟨[3], [2], 2, true⟩]]
+    readsOf 0 xs = 3 ∧ firstReadsOf 0 [] xs = 2 ∧
+    getAt (xs.foldl (cstep 32 (some 0)) {}).reads 0 = 96 ∧
+    getAt (xs.foldl (cstep 32 (some 64)) {}).reads 0 = 64 := by decide
 
 end Traffic
 end Ft
